@@ -176,6 +176,27 @@ def featVerdict (idIn : String) (bboxIn : Sexp) (a : Option AGeom) (propsIn : Se
               if v == "ok" then "ok" else v
   | _ => "FAIL unreadable feature"
 
+/-- "Features keep their id": when a Feature document carries exactly one `id` member (no
+case-variant or duplicate spelling) that is a string or a number and the decoder accepts the
+document, the decoded id is that string, respectively a numeral denoting the same number.
+This is judged on the document, independently of the model's formatting of the number. -/
+def idVerdict (j : Option J) (go : Sexp) : String :=
+  match j, payloadOf go with
+  | some (.obj kvs), .list [.atom "ok", .list [.atom "feat", .atom idOut, _, _, _]] =>
+      let ids := kvs.filter fun kv => kv.1.toLower == "id" || kv.1.toLower == "ıd"
+      match ids, strOfHex idOut with
+      | [("id", .str s)], some out =>
+          if out == s then "ok" else "FAIL the decoded Feature id differs from the document's string id"
+      | [("id", .num lit)], some out =>
+          (match parseNum lit.toList, parseNum out.toList with
+           | some v, some w =>
+               if v == w then "ok"
+               else s!"FAIL the decoded Feature id {out} does not denote the document's numeric id {lit}"
+           | some _, none => s!"FAIL the decoded Feature id {out} is not a numeral although the document's id is the number {lit}"
+           | none, _ => "ok")
+      | _, _ => "ok"
+  | _, _ => "ok"
+
 def handle (op : String) (inp go : Sexp) : Option Reply :=
   match op, inp with
   | "C07.geom", a => do
@@ -247,7 +268,9 @@ def handle (op : String) (inp go : Sexp) : Option Reply :=
       let j : Option J ← match ast with
         | .atom "invalid" => some none
         | s => (decJ s).map some
-      pure ⟨(modelDecode kind j).toStr, decVerdict go⟩
+      let v := decVerdict go
+      let v := if v == "ok" && kind == "feat" then idVerdict j go else v
+      pure ⟨(modelDecode kind j).toStr, v⟩
   | _, _ => none
 
 end GeomVerif.Driver.C07
